@@ -118,6 +118,12 @@ def calls(rng, matrix, tier):
         out.append(("binaryBody", {"body": b}, b[::-1], None))
         out.append(("optBinaryReturn", {"n": 1}, b if b else None, None))
     out.append(("optBinaryReturn", {"n": 1}, [], None))
+    # every combination of present / absent for an endpoint whose query arguments are all optional or collections
+    for first in (None, "", "f&=x"):
+        for lst in ([], [1], [1, 2]):
+            for st in ([], ["a"], ["", "b c"]):
+                for last in (None, 7):
+                    out.append(("optQuery", {"first": first, "lst": lst, "st": st, "last": last}, "r", None))
     out.append(("names", {"type": 1, "fooBar": UUID, "async": 2, "camelCase": None, "self": 3, "snake_arg": [4, 5], "match": True}, "n", None))
     out.append(("safeMix", {"auth": "tok", "safePath": "sp", "unsafePath": "u p/x", "safeQuery": "s&q", "unsafeQuery": "", "safeHeader": "sh",
                             "unsafeHeader": "uh", "dnlQuery": None, "safeInt": 5, "body": {"a": 1}}, "r", None))
@@ -220,7 +226,7 @@ def judge(endpoint, args, ret, m, client, server, obs, out, rep):
         g = got.get(name)
         if name == "t":
             ok = g == nanos(want)
-        elif name in ("qset",):
+        elif name in ("qset", "st"):
             ok = same(g, want, setlike=True)
         elif name == "body" and endpoint == "jsonBody":
             ok = bag_equal(g, want)
